@@ -1258,6 +1258,37 @@ fn run_ops_inner(settings: &SettingsDesc, ops: &[Op], faults_mode: bool, attribu
                 if !faults_mode && poisoned_op {
                     s.out.harness_error = Some("poisoned op in a faults=off run".into());
                 }
+                // ----- a successful delivery after an earlier failed call -----
+                // (e.g. the client's retry without the offending definition): the
+                // one thing that can be demanded of the documented "weird state" is
+                // that the definitions this successful call delivered exist:
+                // each is addressable and its id answers.
+                if res.is_ok() && !was_clean && !s.tainted && !poisoned_op {
+                    let names: Vec<String> = Session::op_defs(&src).into_iter().map(|d| d.0).collect();
+                    for n in names {
+                        s.at(step, PHASE_INSPECT);
+                        let problem = match s.lookup_def_id(&n) {
+                            Err(e) => Some(format!("add_type($ref {n}) -> {e}")),
+                            Ok(id) => match take_snapshot(&s.ts, &id) {
+                                Ok(_) => None,
+                                Err(e) => Some(format!("definition {n} has id {} which does not answer: {e}", id_num(&id))),
+                            },
+                        };
+                        match problem {
+                            Some(p) => {
+                                s.violate(
+                                    "I2",
+                                    format!("delivered-after-fault-not-defined:{opkind}"),
+                                    step,
+                                    format!("{opkind} returned Ok after an earlier failed call, but {p}"),
+                                    "a definition delivered by a successful call exists and its id resolves",
+                                );
+                                break;
+                            }
+                            None => s.out.probe("post_fault.delivered_definition_resolves"),
+                        }
+                    }
+                }
                 // ----- promises -----
                 if let CallResult::Ok(Some(id)) = &res {
                     s.promise(id, step);
